@@ -1,6 +1,8 @@
 import CwMt.Proofs.Engine
 import CwMt.Proofs.EngineTx
 import CwMt.Proofs.TxSites
+import CwMt.Proofs.Executor
+import CwMt.Proofs.Layout
 /-
   C01 — Top-level transactions are atomic: all-or-nothing, in order.
   Model: CwMt/Model/Engine.lean (`App.executeMulti`, `App.execute`, `App.sudo`, `App.wasmSudo`,
@@ -122,5 +124,74 @@ entry points, once around every sub-message (with both `reply` calls outside, on
 and once around every contract call (the querier reading the storage beneath). -/
 theorem tx_sites_as_modelled : Gen.Tx.sites = expectedTxSites :=
   TxSites.sites_as_modelled
+
+
+/-! ### the `Executor` helpers built on `execute` (executor.rs)
+
+`instantiate_contract`, `instantiate2_contract` and `execute_contract` parse the response data AFTER `execute` has
+committed the transaction; `migrate_contract` and `send_tokens` are `execute` of one message. The parsers are
+the cw-utils ones transcribed in `CwMt/Model/Executor.lean`; they accept everything the encoders of
+`CwMt/Model/Wire.lean` produce (for responses shorter than 2^63 bytes and a non-empty contract address), so a
+helper that does not return `Ok` has persisted nothing. -/
+
+theorem helper_instantiate_atomic (cfg : Config E) (hg : ExecutorP.GenNonEmpty cfg) (blk : Block) (fuel : Nat)
+    (ch : Chain E) (s : Addr) (codeId : Nat) (m : Val) (funds : Coins) (label : String) (admin : Option String)
+    (salt : Option Val)
+    (hsize : ∀ r c t, App.execute cfg blk fuel ch s (.wasmInstantiate admin codeId m funds label salt) = (.ok r, c, t) →
+      (r.data.getD []).length < 128 ^ 9)
+    (o : Outcome (List UInt8)) (ch' : Chain E) (tr : Trace)
+    (h : Executor.instantiateContract cfg blk fuel ch s codeId m funds label admin salt = (o, ch', tr))
+    (ho : o.isOk = false) : ch' = ch :=
+  ExecutorP.instantiate_contract_atomic cfg hg blk fuel ch s codeId m funds label admin salt hsize o ch' tr h ho
+
+theorem helper_instantiate_returns_address (cfg : Config E) (hg : ExecutorP.GenNonEmpty cfg) (blk : Block) (fuel : Nat)
+    (ch : Chain E) (s : Addr) (codeId : Nat) (m : Val) (funds : Coins) (label : String) (admin : Option String)
+    (salt : Option Val)
+    (hsize : ∀ r c t, App.execute cfg blk fuel ch s (.wasmInstantiate admin codeId m funds label salt) = (.ok r, c, t) →
+      (r.data.getD []).length < 128 ^ 9)
+    (a : List UInt8) (ch' : Chain E) (tr : Trace)
+    (h : Executor.instantiateContract cfg blk fuel ch s codeId m funds label admin salt = (.ok a, ch', tr)) :
+    ∃ addr ch₀ r, registerContract cfg ch codeId s admin label blk.height salt = .ok (addr, ch₀) ∧
+      a = addr.toUTF8.toList ∧
+      App.execute cfg blk fuel ch s (.wasmInstantiate admin codeId m funds label salt) = (.ok r, ch', tr) :=
+  ExecutorP.instantiate_contract_returns_address cfg hg blk fuel ch s codeId m funds label admin salt hsize a ch' tr h
+
+theorem helper_execute_atomic (cfg : Config E) (blk : Block) (fuel : Nat) (ch : Chain E) (s : Addr)
+    (contract : String) (m : Val) (funds : Coins)
+    (hsize : ∀ r c t, App.execute cfg blk fuel ch s (.wasmExecute contract m funds) = (.ok r, c, t) →
+      (r.data.getD []).length < 128 ^ 9)
+    (o : Outcome AppResponse) (ch' : Chain E) (tr : Trace)
+    (h : Executor.executeContract cfg blk fuel ch s contract m funds = (o, ch', tr)) (ho : o.isOk = false) :
+    ch' = ch :=
+  ExecutorP.execute_contract_atomic cfg blk fuel ch s contract m funds hsize o ch' tr h ho
+
+theorem helper_migrate_atomic (cfg : Config E) (blk : Block) (fuel : Nat) (ch : Chain E) (s : Addr)
+    (contract : String) (m : Val) (newCodeId : Nat) (o : Outcome AppResponse) (ch' : Chain E) (tr : Trace)
+    (h : Executor.migrateContract cfg blk fuel ch s contract m newCodeId = (o, ch', tr)) (ho : o.isOk = false) :
+    ch' = ch :=
+  Engine.atomic_execute cfg blk fuel ch s _ o ch' tr h ho
+
+theorem helper_send_tokens_atomic (cfg : Config E) (blk : Block) (fuel : Nat) (ch : Chain E) (s : Addr)
+    (recipient : String) (amount : Coins) (o : Outcome AppResponse) (ch' : Chain E) (tr : Trace)
+    (h : Executor.sendTokens cfg blk fuel ch s recipient amount = (o, ch', tr)) (ho : o.isOk = false) :
+    ch' = ch :=
+  Engine.atomic_execute cfg blk fuel ch s _ o ch' tr h ho
+
+/-- The non-emptiness hypothesis is needed, not a convenience: with an empty contract address (only a custom
+`AddressGenerator` can hand one out) and non-empty data, the encoder omits field 1 and the cw-utils parser rejects
+the response of the already committed transaction. Replayed on the real code (DESIGN.md 0.7): `instantiate_contract`
+returns `Err("… invalid field #2 for field #1")` and the storage has changed. -/
+theorem helper_instantiate_needs_nonempty_address :
+    parseInstantiateResponseData (encodeInstantiateResponse "" [120]) = none := by
+  unfold encodeInstantiateResponse
+  rw [show ("" : String) = String.ofList [] from rfl, Layout.utf8_ofList]
+  decide
+
+/-- the parsers accept what the encoders produce (statement used above; non-vacuity on a concrete response) -/
+example : parseInstantiateResponseData (encodeInstantiateResponse "c0" [1, 2]) = some ([99, 48], some [1, 2]) := by
+  unfold encodeInstantiateResponse
+  rw [show ("c0" : String) = String.ofList ['c', '0'] from rfl, Layout.utf8_ofList]
+  decide
+example : parseExecuteResponseData (encodeExecuteResponse []) = some none := by decide
 
 end CwMt.C01
